@@ -107,6 +107,10 @@ def unique_rule(ctx, p, K):
     ok = len(rep) == 1 and len(new) == 1 and all(s.op == "+=" and value_poly(s.value) == term for s in sw)
     ctx.ob(rule, f.key + ":term", ok, where=f, node=sw[0].node, construct="; ".join(f"{s.op} {short(value_poly(s.value), 90)}" for s in sw),
            message="a repeat of a source pixel must ADD sub_fraction * weight to its existing slot and a first occurrence must add the same term to a new slot (sub_fraction = 1 / sub_size[ip]^2)")
+    if ok and not cname:
+        ctx.ob(rule, f.key + ":count", False, where=f, node=su[0].node, construct=f"index store at {list(map(repr, su[0].idx))}",
+               message="the slot a new source pixel is recorded in must be a running count of the distinct source pixels of this data pixel (restarted per data pixel, advanced on every first occurrence); "
+                       "a slot that never advances makes every new source pixel overwrite the previous one")
     if ok and cname:
         r, nw = rep[0], new[0]
         # merged spelling with the slot chosen first: idx = ite(first occurrence, new slot, remembered slot)
